@@ -279,6 +279,7 @@ def main(argv):
     if a.prop == 'replay':
         from . import replay
         return replay.replay(a.rest[0])
+    from . import props2  # noqa: registers C04, C12
     if a.prop not in REGISTRY:
         print(f'unknown property {a.prop}', file=sys.stderr)
         return 2
@@ -1377,10 +1378,10 @@ def parse_summary(log_hex):
     out = dict(files_del=0, folders_del=0, links_del=0, files_cp=0, folders_cr=0, links_cp=0, nothing=False, would=[])
     for h in log_hex:
         l = bytes.fromhex(h).decode(errors='replace')
-        m = re.match(r'(?:Deleted|Would delete) (\d+) file\(s\) totalling (\S+), (\d+) folder\(s\) and (\d+) symlink\(s\)', l)
+        m = re.match(r'(?:Deleted|Would delete) (\d+) file\(s\) totalling (.+?), (\d+) folder\(s\) and (\d+) symlink\(s\)', l)
         if m:
             out.update(files_del=int(m.group(1)), folders_del=int(m.group(3)), links_del=int(m.group(4))); continue
-        m = re.match(r'(?:Copied|Would copy) (\d+) file\(s\) totalling (\S+), (?:created|would create) (\d+) folder\(s\) and (?:copied|would copy) (\d+) symlink\(s\)', l)
+        m = re.match(r'(?:Copied|Would copy) (\d+) file\(s\) totalling (.+?), (?:created|would create) (\d+) folder\(s\) and (?:copied|would copy) (\d+) symlink\(s\)', l)
         if m:
             out.update(files_cp=int(m.group(1)), folders_cr=int(m.group(3)), links_cp=int(m.group(4))); continue
         if l == 'Nothing to do!':
